@@ -136,7 +136,7 @@ def engine_part(ck, thorough):
         ck.cov["Engine." + a] = cov[a]
     ck.make(tc.ENGINE_DRV, tc.ENGINE_DRV + ".asan", tc.ENGINE_DRV + ".tsan")
     kw = dict(drv=tc.ENGINE_DRV, spec="EngineTrace")
-    n = 60 if thorough else 10
+    n = 40 if thorough else 10
     lines = []
     for proto in ("tcp", "udp", "tcpb", "udpb"):
         for pi, p in enumerate(ENGINE_PROGS):
@@ -146,7 +146,7 @@ def engine_part(ck, thorough):
     tc.run_cases(ck, lines[::3], "engine_asan", engine_nontrivial, variant=".asan", **kw)
     tc.run_cases(ck, lines[1::3], "engine_tsan", engine_nontrivial, variant=".tsan", **kw)
     for j, (proto, pi) in enumerate([("tcp", 1), ("udp", 7), ("tcp", 12)] if not thorough else [("tcp", 1), ("udp", 7), ("tcp", 12), ("tcp", 2), ("tcpb", 0), ("udp", 3), ("tcp", 7), ("udp", 9), ("tcp", 10), ("tcp", 11)]):
-        tc.run_dfs(ck, "%s | %s" % (proto, ENGINE_PROGS[pi]), 1 if not thorough else 2, 12000 if thorough else 500, "engine_dfs%d" % j, engine_nontrivial, **kw)
+        tc.run_dfs(ck, "%s | %s" % (proto, ENGINE_PROGS[pi]), 1 if not thorough else 2, 5000 if thorough else 500, "engine_dfs%d" % j, engine_nontrivial, **kw)
 
 
 def run(ck):
@@ -202,7 +202,7 @@ def run(ck):
     # preemption-bounded DFS with the AddressSanitizer build for the destruction programs (a use after free in the plain
     # build often goes unnoticed)
     for j, p in enumerate(PROGS[:3] if thorough else PROGS[:2]):
-        tc.run_dfs(ck, p, 1, 6000 if thorough else 700, "asandfs%d" % j, nontrivial, variant=".asan")
+        tc.run_dfs(ck, p, 1, 4000 if thorough else 700, "asandfs%d" % j, nontrivial, variant=".asan")
     # destruction while a Sync->Async flush is handing bytes over on an application thread (the flusher is counted by the gate;
     # what it touches after its last critical section must still be alive).  Under ASan the scheduler also asks the runtime
     # whether the mutex / condition variable an operation is performed on lies in freed memory.
@@ -223,7 +223,7 @@ def run(ck):
                 rp = ck.save_replay("stoprace_" + proto, {"trace.ndjson": outp, "case.txt": "stoprace %s\n" % proto})
                 ck.classify({"spec": "StopTrace", "proto": proto}, "real %s engine: %s" % (proto, json.dumps(evs[v.maxl - 1]) if v.maxl <= len(evs) else "?"), rp)
     for j, p in enumerate(PROGS[:2] + PROGS[3:4] if not thorough else PROGS):
-        tc.run_dfs(ck, p, 1 if not thorough else 2, 30000 if thorough else 1500, "dfs%d" % j, nontrivial)
+        tc.run_dfs(ck, p, 1 if not thorough else 2, 12000 if thorough else 1500, "dfs%d" % j, nontrivial)
     engine_part(ck, thorough)
 
 
